@@ -5,7 +5,7 @@
    Same vocabulary as Props/C04disc.v (read its guide first): R = arbitrary rules, trec =
    test_recovery or None, every draw script.  [row0_of sir g i0 r0] = [N-|I0|-|R0|; |I0|; |R0|]
    (SIS: [N-|I0|; |I0|]); [init_status i0 r0 u] = R on R0, I on I0, S elsewhere. *)
-From EoNV Require Import Prelude Samp Graph Discrete DiscreteP SampP DiscreteChk DiscreteRun DiscreteRunS DiscreteTop DiscreteC04 DiscreteC05.
+From EoNV Require Import Prelude Samp Graph Discrete DiscreteP SampP DiscreteChk DiscreteRun DiscreteRunS DiscreteTop DiscreteC04 DiscreteC05 DiscreteHist DiscreteC09 DiscretePerc.
 From EoNV Require Gillespie GillespieP.
 From Coq Require Import Permutation.
 
@@ -93,6 +93,22 @@ Theorem C05_basic_discrete_SIS_checker_accepts_every_run : forall g R ord i0 tmi
   dinit_okb false g i0 [] tmin (so_rows (o_sim out)) (option_map fd_hist (so_full (o_sim out))) = true.
 Proof. exact dsis_init_accepted. Qed.
 
+(* percolation_based_discrete_SIR: row 0 (any return mode) and, with full data on an undirected
+   graph, the first history entries *)
+Theorem C05_percolation_based_discrete_SIR_row0_is_the_request : forall g R ord i0 r0o tmin tmax full fuel ds out tr,
+  wf_inputb g i0 (opt_list r0o) = true -> perm_oracle ord -> (full = true -> pick_sound R) ->
+  exec (percolation_based_discrete_SIR_R g R ord (Some i0) r0o None tmin tmax full fuel) ds [] = (Ok out, tr) ->
+  dwf_rowsb true true g tmin tmax (so_rows (o_sim out)) = true /\
+  exists rest, so_rows (o_sim out) = (tmin, row0_of true g i0 (opt_list r0o)) :: rest.
+Proof. exact psir_rows_accepted. Qed.
+
+Theorem C05_percolation_based_discrete_SIR_checker_accepts_every_run : forall g R ord i0 r0o tmin tmax fuel ds out tr,
+  wf_inputb g i0 (opt_list r0o) = true -> sym_graphb g = true -> perm_oracle ord -> pick_sound R -> whole_steps tmin tmax ->
+  exec (percolation_based_discrete_SIR_R g R ord (Some i0) r0o None tmin tmax true fuel) ds [] = (Ok out, tr) ->
+  exists fd, so_full (o_sim out) = Some fd /\ dtx_okb true g i0 tmin (fd_hist fd) (fd_trans fd) = true /\
+    dinit_okb true g i0 (opt_list r0o) tmin (so_rows (o_sim out)) (Some (fd_hist fd)) = true.
+Proof. exact psir_tx_accepted. Qed.
+
 Theorem C05_discrete_checker_sound : forall sir g i0 r0 tmin rows hist, dinit_okb sir g i0 r0 tmin rows hist = true ->
   (exists r rest, rows = r :: rest /\ fst r == tmin /\ snd r = row0_of sir g i0 r0) /\
   (forall hs, hist = Some hs -> forall u, In u (gnodes g) -> exists e rest,
@@ -144,6 +160,8 @@ Print Assumptions C05_basic_discrete_SIS_rho_selects_round_N_rho_distinct_nodes.
 Print Assumptions C05_discrete_rounding_is_round_half_even.
 Print Assumptions C05_discrete_SIR_checker_accepts_every_run.
 Print Assumptions C05_basic_discrete_SIS_checker_accepts_every_run.
+Print Assumptions C05_percolation_based_discrete_SIR_row0_is_the_request.
+Print Assumptions C05_percolation_based_discrete_SIR_checker_accepts_every_run.
 Print Assumptions C05_discrete_checker_sound.
 Print Assumptions C05_disc_hypotheses_satisfiable.
 Print Assumptions C05_disc_example.
